@@ -233,7 +233,11 @@ def _world(w, h, rnd, reqs, res, done):
                             if isinstance(props.get('name'), str) and wn.lower() == props['name'].lower():
                                 d['options'] = None
                         sn[2].clear()
-                    if b2 == a2:
+                    conflict = 'already running' in str(rep.get('reason')) or 'restarting' in str(rep.get('reason'))
+                    if b2 == a2 and conflict:
+                        mech = 'applied-although-refused-as-conflicting'
+                    elif b2 == a2 and len(props['options']) >= 1 and not any(o.startswith('conflict') for o in ops):
+                        # the known mechanism needs an option that passes validation and fails when applied
                         mech = 'options-applied-one-by-one'
                 res.violation('C11/changed-after-error:%s[%s]' % (cmd, mech),
                               'request %s %s (operators %s) was answered error (%s) but the daemon changed: %s'
